@@ -382,6 +382,23 @@ class Session:
                 if self.rng.random() < 0.3:
                     self.jobs_cmd()
                 self.do_bg(gid)
+            elif r < 0.69 and [g for g in self.stopped_jobs() if len(self.live_members(g)) > 1]:
+                # a fully stopped pipeline: one member is continued from outside and then stopped again (or killed);
+                # all live members are stopped once more, and that is what `jobs` must say
+                gid = self.rng.choice([g for g in self.stopped_jobs() if len(self.live_members(g)) > 1])
+                pid = self.rng.choice([p for p, _ in self.live_members(gid)])
+                self.note(("cont-then-stop-one", "bg"))
+                try:
+                    os.kill(pid, signal.SIGCONT)
+                    self.wait_until(lambda: (proc_stat(pid) or {"state": "X"})["state"] != "T", 2.0)
+                    self.plain_line("empty")
+                    os.kill(pid, self.rng.choice([signal.SIGSTOP, signal.SIGSTOP, signal.SIGKILL]))
+                except ProcessLookupError:
+                    raise Inconclusive("the member ended by itself meanwhile")
+                self.wait_until(lambda: (proc_stat(pid) or {"state": "X"})["state"] in ("T", "Z", "X"), 2.0)
+                time.sleep(0.1)
+                self.plain_line("empty")
+                self.jobs_cmd()
             elif r < 0.72 and live:
                 self.do_fg(self.rng.choice(live))
             elif r < 0.84 and live:
